@@ -86,6 +86,13 @@ impl Proc {
     /// Start the real executable with the given arguments and environment; waits until every
     /// address in `probe_addrs` accepts connections.
     pub fn start(bin: &Path, args: &[String], env: &[(String, String)], probe_addrs: &[String], wait: Duration) -> Result<Proc, String> {
+        let a: Vec<std::ffi::OsString> = args.iter().map(|s| s.into()).collect();
+        let e: Vec<(String, std::ffi::OsString)> = env.iter().map(|(k, v)| (k.clone(), v.into())).collect();
+        Self::start_os(bin, &a, &e, probe_addrs, wait)
+    }
+
+    /// As `start`, with arguments and environment values that need not be valid UTF-8.
+    pub fn start_os(bin: &Path, args: &[std::ffi::OsString], env: &[(String, std::ffi::OsString)], probe_addrs: &[String], wait: Duration) -> Result<Proc, String> {
         let mut cmd = Command::new(bin);
         // the log level is part of the operator's environment: varied from start to start (an
         // explicit RUST_LOG in `env` wins)
